@@ -7,6 +7,7 @@ that op, the coroutine's pending prefix (generator frame local), the paste flag
 and the paste buffer."""
 import codecs
 import itertools
+import errno
 import os
 import re
 
@@ -14,7 +15,7 @@ from common import *  # noqa
 
 PROP = "C03"
 TABLES = ["C03_AnsiSequences", "C03_Regexes"]
-MODELS = [("c03", "Extract/ExC03.v", "run_C03_all3")]
+MODELS = [("c03", "Extract/ExC03.v", "run_C03_all4")]
 
 ESC = "\x1b"
 START = "\x1b[200~"
@@ -148,13 +149,19 @@ class Impl:
         def fake_select(r, w, x, timeout=None):
             sel = calls[state["i"]][0]
             if sel == 2:
-                raise OSError(9, "injected")
+                raise OSError(errno.EBADF, "injected")
+            if sel == 3:
+                raise InterruptedError(errno.EINTR, "injected")
             return (list(r), [], []) if sel == 0 else ([], [], [])
 
         def fake_read(fd, count):
             rd = calls[state["i"]][1]
             if rd[0] == 1:
-                raise OSError(5, "injected")
+                raise OSError(errno.EIO, "injected")
+            if rd[0] == 2:
+                raise BlockingIOError(errno.EAGAIN, "injected")
+            if rd[0] == 3:
+                raise InterruptedError(errno.EINTR, "injected")
             state["taken"] = list(rd[1])
             return bytes(rd[1])
         old_sel, old_os = pu.select, pu.os
@@ -204,6 +211,69 @@ class Impl:
             if w is not None:
                 os.close(w)
             os.close(r)
+        # (round 7) real error outcomes of os.read: EAGAIN on a non-blocking descriptor, EINTR
+        import signal
+        import types
+        from prompt_toolkit.input import posix_utils as pu
+        r, w = os.pipe()
+        os.set_blocking(r, False)
+        rd = PosixStdinReader(r)
+        old_sel = pu.select
+        try:
+            if rd.read() != "" or rd.closed:
+                return "non-blocking empty pipe: expected '' and not closed (select says not ready)"
+            # select claims readiness (as after a race with another reader): the real os.read raises BlockingIOError(EAGAIN)
+            pu.select = types.SimpleNamespace(select=lambda rl, wl, xl, timeout=None: (list(rl), [], []))
+            try:
+                os.read(r, 1)
+                return "test setup: os.read on the empty non-blocking pipe did not raise"
+            except BlockingIOError:
+                pass
+            if rd.read() != "" or rd.closed:
+                return "real EAGAIN from os.read: expected '' and not closed, got closed=%r" % (rd.closed,)
+            os.write(w, b"\xc3")
+            if rd.read() != "" or rd.closed:
+                return "first byte of a sequence after EAGAIN: expected '' and not closed"
+            if rd.read() != "" or rd.closed or rd._stdin_decoder.getstate()[0] != b"\xc3":
+                return "real EAGAIN with a byte pending: expected '' , not closed, byte kept (model: RdError decodes b'')"
+            os.write(w, b"\xa9")
+            if rd.read() != "\xe9" or rd.closed:
+                return "sequence completed after EAGAIN: expected e-acute"
+        finally:
+            pu.select = old_sel
+            os.close(r)
+            os.close(w)
+        # EINTR: a signal arrives while os.read blocks; the handler returns, CPython (PEP 475) retries the call, so
+        # read() never sees InterruptedError: it returns the data written by the handler and stays open
+        r, w = os.pipe()
+        rd = PosixStdinReader(r)
+        fired = []
+
+        def on_alarm(signum, frame):
+            fired.append(1)
+            if len(fired) == 1:
+                os.write(w, b"z")
+            elif len(fired) > 40:
+                raise RuntimeError("blocked os.read was not resumed")
+        old_handler = signal.signal(signal.SIGALRM, on_alarm)
+        old_sel = pu.select
+        try:
+            pu.select = types.SimpleNamespace(select=lambda rl, wl, xl, timeout=None: (list(rl), [], []))
+            signal.setitimer(signal.ITIMER_REAL, 0.05, 0.05)
+            try:
+                t = rd.read()
+            except Exception as e:  # noqa
+                return "EINTR during a blocking os.read: read() raised %r" % (e,)
+            finally:
+                signal.setitimer(signal.ITIMER_REAL, 0, 0)
+            if t != "z" or rd.closed or not fired:
+                return "EINTR during a blocking os.read: expected the retried read to return 'z' and the reader open, got %r closed=%r signals=%d" % (t, rd.closed, len(fired))
+        finally:
+            signal.setitimer(signal.ITIMER_REAL, 0, 0)
+            signal.signal(signal.SIGALRM, old_handler)
+            pu.select = old_sel
+            os.close(r)
+            os.close(w)
         # end of file with an incomplete sequence pending: never delivered (C03_reader_eof_tail_undelivered)
         r, w = os.pipe()
         rd = PosixStdinReader(r)
@@ -597,6 +667,30 @@ def regex_scope(chk):
     return out
 
 
+def regex_long(chk):
+    """structured strings beyond the exhaustive scope: long runs of (Unicode) digits and ';', every terminator, optional '<',
+    X10 payloads, and random one-character damage of such strings"""
+    rng = chk.rng
+    digs = "0123456789\u0663\u0967\uff15\U0001d7d8"
+    out = []
+    for _ in range(30000 if chk.tier == "thorough" else 4000):
+        kind = rng.randrange(4)
+        if kind == 0:
+            body = "".join(rng.choice(digs) for _ in range(rng.randint(1, 12))) + ";" + "".join(rng.choice(digs) for _ in range(rng.randint(0, 12))) + rng.choice("RrMm;~\n")
+        elif kind == 1:
+            body = rng.choice(["<", ""]) + "".join(rng.choice(digs + ";;") for _ in range(rng.randint(0, 30))) + rng.choice(["M", "m", "R", "", "\n", "MM"])
+        elif kind == 2:
+            body = "M" + "".join(rng.choice(["a", "\n", "\x1b", "\u0663", "~", "\x00", "\U0010ffff"]) for _ in range(rng.randint(0, 4)))
+        else:
+            body = "".join(rng.choice(RE_ALPHA) for _ in range(rng.randint(0, 12)))
+        x = "\x1b[" + body
+        if rng.random() < 0.3 and x:
+            i = rng.randrange(len(x))
+            x = x[:i] + rng.choice(["", rng.choice(RE_ALPHA), x[i] * 2]) + x[i + 1:]
+        out.append(x)
+    return out
+
+
 def utf8_scope(chk):
     """every byte string of length <= 3 (quick) / 4 (thorough) over the class-boundary bytes"""
     out = [[]]
@@ -627,14 +721,14 @@ def gen_reader_mode_cases(chk):
     datas = [[0x61], [0xc3], [0xa9, 0x1b], [0xe7, 0x95], [0x8c], [0xff, 0x41], [0xf0, 0x9f, 0x98], [0x80], [0xc3, 0x28],
              [0xe2, 0x82], [0xe2, 0x28, 0xa1], [0xf0, 0x90, 0x28], [0xf0, 0x9f, 0x98, 0x41], [0xed, 0xa0], [0xed, 0xa0, 0x80],
              [0xe0, 0x80], [0xf4, 0x90], [0xc0, 0xaf], [0xe2, 0x82, 0xac], [0xf0, 0x9f, 0x98, 0x80]]
-    outcomes = [[0, []], [1]] + [[0, d] for d in datas]
+    outcomes = [[0, []], [1], [2], [3]] + [[0, d] for d in datas]
     out = []
     for mode in range(4):
         for d1 in datas:
             for d2 in datas:
                 out.append([mode, [[0, [0, d1]], [0, [0, d2]], [0, [0, [0x62]]]]])
         for _ in range(600 if chk.tier == "thorough" else 120):
-            out.append([mode, [[rng.choice([0, 0, 0, 0, 1, 2]), rng.choice(outcomes + outcomes[2:] * 2)] for _ in range(rng.randint(1, 7))]])
+            out.append([mode, [[rng.choice([0, 0, 0, 0, 0, 1, 2, 3]), rng.choice(outcomes + outcomes[4:] * 2)] for _ in range(rng.randint(1, 7))]])
         # every byte string of length <= 2 (3 in thorough) over the class-boundary bytes, one call, then a probe call
         for n in range(1, (4 if chk.tier == "thorough" else 3)):
             for t in itertools.product(U8_ALPHA, repeat=n):
@@ -681,20 +775,30 @@ def show_case(case):
 
 
 def main(tier):
+    import time as _time
     chk = Check(PROP, tier)
+    _t = [_time.time()]
+    phases = {}
+
+    def lap(name):
+        now = _time.time()
+        phases[name] = round(phases.get(name, 0) + now - _t[0], 1)
+        _t[0] = now
     pr = chk.proofs("Props/C03.v", tables=TABLES)
-    okm, logm = build_model("c03", "Extract/ExC03.v", "run_C03_all3", tables=TABLES)
+    lap("proofs")
+    okm, logm = build_model("c03", "Extract/ExC03.v", "run_C03_all4", tables=TABLES)
     if not okm and not getattr(pr, "gen_ok", True):
         # the table generator failed closed (reported by proof_gate below): go on with the
         # last generated table so that the correspondence run can still find a failing input
         chk.note("gen/gen_t_c03.py failed closed: " + (pr.gen_log or "").strip()[-300:])
-        okm, logm = build_model("c03", "Extract/ExC03.v", "run_C03_all3", tables=())
+        okm, logm = build_model("c03", "Extract/ExC03.v", "run_C03_all4", tables=())
     if not okm:
         chk.violation("tie", "model does not build: " + logm[-400:], {"kind": "model-build"}, {"log": logm[-3000:]}, no_input=True)
         return chk.finish()
     from prompt_toolkit.input.ansi_escape_sequences import ANSI_SEQUENCES
     table = dict(ANSI_SEQUENCES)
     impl = Impl()
+    lap("model_build")
 
     # table clause, directly on the implementation
     for s, exp, got in oracle_table(impl, table):
@@ -732,6 +836,7 @@ def main(tier):
         if i % 1499 == 0:
             chk.sample({"schedule": show_case(c), "impl_result": out[:2]})
     chk.coverage["input_distribution"] = dict(dist, corpus=len(corpus))
+    lap("impl_and_oracle")
 
     def tagger(c, a, m):
         for j, (x, y) in enumerate(zip(a, m if isinstance(m, list) else [])):
@@ -753,6 +858,7 @@ def main(tier):
         describe=describe,
         oracle_failed=lambda i: i in oracle_bad)
 
+    lap("schedules_model")
     # Vt100Input + PosixStdinReader over a real pipe (incremental UTF-8 across reads)
     pcases = gen_pipe_cases(chk)
     ptext = [decode_ops(b) for b in pcases]
@@ -773,21 +879,34 @@ def main(tier):
         else:
             chk.coverage["traces_validated_against_impl"] += 1
 
+    lap("pipe")
     # the four regexes of /repo against the hand recognisers, exhaustively on a small scope
-    rs = regex_scope(chk)
+    # (round 7) the matcher that is compared is the derivative matcher run on the ASTs regenerated from /repo's pattern
+    # strings ((14 str)); the hand recognisers are PROVED equal to it for all strings (C03_*_is_matcher) and are
+    # compared on a sample (quick) / the whole scope (thorough) as a check of the extraction
+    rs = regex_scope(chk) + regex_long(chk)
     rimpl = [[int(x) for x in impl.regexes(x_)] for x_ in rs]
-    rmodel = run_model("c03", [[8, S(x_)] for x_ in rs])
+    rmodel = run_model("c03", [[14, S(x_)] for x_ in rs])
     nre = 0
     for x_, a, m in zip(rs, rimpl, rmodel):
         if a != m:
             nre += 1
             if nre <= 3:
-                chk.violation("tie", "hand recogniser differs from re on %r: re (cpr, mouse, cpr_prefix, mouse_prefix)=%r model=%r" % (x_, a, m),
+                chk.violation("tie", "re.match differs from the derivative matcher on the regenerated AST on %r: re (cpr, mouse, cpr_prefix, mouse_prefix)=%r matcher=%r" % (x_, a, m),
                               {"kind": "regex"}, {"string": x_, "impl": a, "model": m}, no_input=True)
+    ridx = range(len(rs)) if chk.tier == "thorough" else sorted(chk.rng.sample(range(len(rs)), 3000))
+    rmodel8 = run_model("c03", [[8, S(rs[i])] for i in ridx])
+    for i, m in zip(ridx, rmodel8):
+        if rimpl[i] != m:
+            nre += 1
+            if nre <= 3:
+                chk.violation("tie", "hand recogniser differs from re on %r: re (cpr, mouse, cpr_prefix, mouse_prefix)=%r model=%r" % (rs[i], rimpl[i], m),
+                              {"kind": "regex"}, {"string": rs[i], "impl": rimpl[i], "model": m}, no_input=True)
     chk.coverage["input_distribution"]["regex_scope"] = len(rs)
     chk.coverage["traces_validated_against_impl"] += len(rs) - nre
     chk.coverage["evaluations"] += len(rs)
 
+    lap("regex")
     # PosixStdinReader's decoder against the Coq UTF-8 decoder, exhaustively on a small scope
     us = utf8_scope(chk)
     uimpl = [impl.decode_once(b) for b in us]
@@ -803,6 +922,7 @@ def main(tier):
     chk.coverage["traces_validated_against_impl"] += len(us) - nu
     chk.coverage["evaluations"] += len(us)
 
+    lap("utf8")
     # PosixStdinReader.read(): the closed flag and the outcomes of select / os.read as labels (stubbed select and os in
     # posix_utils), plus real descriptors for end of file and a closed descriptor
     rcases = gen_reader_cases(chk)
@@ -823,13 +943,14 @@ def main(tier):
     chk.coverage["input_distribution"]["reader_calls"] = len(rcases)
     chk.coverage["traces_validated_against_impl"] += len(rcases) - nrd
 
+    lap("reader")
     # PosixStdinReader(errors=...): the four handlers, read() raising UnicodeDecodeError under "strict"
     ecases = gen_reader_mode_cases(chk)
     eimpl = [impl.run_reader(c_[1], mode=c_[0]) for c_ in ecases]
-    emodel = run_model("c03", [[13, c_[0], c_[1]] for c_ in ecases])
+    emodel = run_model("c03", [[15, c_[0], c_[1]] for c_ in ecases])
     ne = 0
     for c_, a, m in zip(ecases, eimpl, emodel):
-        chk.count_case([13, c_[0], c_[1]], True)
+        chk.count_case([15, c_[0], c_[1]], True)
         if sx_norm(a) != m:
             ne += 1
             if ne <= 3:
@@ -840,6 +961,7 @@ def main(tier):
     chk.coverage["input_distribution"]["reader_errors_calls"] = len(ecases)
     chk.coverage["traces_validated_against_impl"] += len(ecases) - ne
 
+    lap("reader_errors")
     # the specification's encoder (Model/C03_Utf8Spec.v encode_se1) against CPython's str.encode('utf-8', 'surrogateescape')
     ncp = nbadcp = 0
     for chunk in gen_encode_cases(chk):
@@ -854,6 +976,7 @@ def main(tier):
     chk.coverage["input_distribution"]["utf8_spec_code_points"] = ncp
     chk.coverage["evaluations"] += ncp
 
+    lap("utf8_spec")
     # the memo table _IsPrefixOfLongerMatchCache: answers and contents after query histories (fresh instance each)
     qcases = gen_cache_cases(chk, table)
     qimpl = [impl.run_cache(q_) for q_ in qcases]
@@ -869,12 +992,13 @@ def main(tier):
     chk.coverage["input_distribution"]["cache_histories"] = len(qcases)
     chk.coverage["traces_validated_against_impl"] += len(qcases) - nq
 
+    lap("cache")
     # extraction/driver cross-check inside Coq on a sample
     k = 600 if chk.tier == "thorough" else 150
     small = [i for i in range(len(cases)) if sum(len(op[1]) for op in cases[i] if op[0] == 0) <= 80]
     idx = sorted(chk.rng.sample(small, min(k, len(small))))
     pairs = [(cases[i], impl_results[i]) for i in idx]
-    bad, logs = vm_crosscheck(PROP, "run_C03_all3", "Model.C03_Vt100Parser Model.C03_Vt100Input Model.C03_Cache Model.C03_Utf8Spec Model.C03_Errors", pairs, per_file=150)
+    bad, logs = vm_crosscheck(PROP, "run_C03_all4", "Model.C03_Vt100Parser Model.C03_Vt100Input Model.C03_Cache Model.C03_Utf8Spec Model.C03_Errors Model.C03_RegexMatch Model.C03_Run7", pairs, per_file=150)
     chk.coverage["vm_compute_crosschecked"] = len(pairs)
     model_bad = set(i for i, (a, m) in enumerate(zip(impl_results, model_results)) if sx_norm(a) != m)
     vm_bad = set(idx[b] for b in bad if isinstance(b, int))
@@ -884,7 +1008,9 @@ def main(tier):
         chk.violation("tie", "extracted model and in-Coq evaluation disagree on cases %r" % sorted(vm_bad ^ (model_bad & set(idx)))[:5],
                       {"kind": "extraction"}, {"cases": [cases[i] for i in sorted(vm_bad ^ (model_bad & set(idx)))[:5]]}, no_input=True)
 
+    lap("vm")
     proof_gate(chk, pr)
+    chk.coverage["phase_seconds"] = phases
     chk.coverage["rule"] = ("cases = read/flush schedules (feed(data) / flush() sequences) run on a real Vt100Parser and on the Coq model, "
                             "compared after every op (key presses, generator-local prefix, paste flag, paste buffer); every table key; every "
                             "proper prefix of a key x %d probe characters; CPR/mouse complete/truncated/malformed; paste markers "
@@ -896,13 +1022,16 @@ def main(tier):
     chk.assumptions += ["the parser's pending prefix is read from the suspended generator's frame locals (gi_frame.f_locals['prefix']); the decoder's undecoded bytes from _stdin_decoder.getstate()[0]",
                         "regex recognisers: proved equal, for all strings, to the whole-string language of the regular-expression ASTs that gen/gen_t_c03.py regenerates from /repo's four pattern strings with re's own parser "
                         "(re._parser.parse; unsupported syntax, flags other than re.UNICODE or missing ^...\\Z anchors fail closed; C03_*_is_regex); \\d is re's class regenerated over the whole code space, '.' is checked to exclude only \\n. "
-                        "Assumed: re.match on these anchored patterns accepts exactly that language (backtracking does not change acceptance) - tested on this run against /repo's compiled regexes on every string of length <= 3 over %r "
-                        "and on ESC [ + every tail of length <= %d over it (%d strings)" % (RE_ALPHA, 5 if chk.tier == "thorough" else 4, len(rs)),
+                        "Round 7: an executable derivative matcher (Model/C03_RegexMatch.v) is proved to decide that language and each hand recogniser is proved equal to it on the regenerated AST for all strings (C03_*_is_matcher). "
+                        "Assumed: re.match on these anchored patterns accepts exactly that language (backtracking does not change acceptance) - tested on this run by running the extracted matcher against /repo's compiled regexes on every string of length <= 3 over %r, "
+                        "on ESC [ + every tail of length <= %d over it, and on structured random strings with digit runs up to length 30, Unicode digits, every terminator and one-character damage (%d strings in all)" % (RE_ALPHA, 5 if chk.tier == "thorough" else 4, len(rs)),
                         "UTF-8: the Coq decoder (Model/C03_Vt100Input.v step/dec) was compared with the decoder PosixStdinReader constructs (utf-8, surrogateescape, incremental) on EVERY byte string of length <= %d over the %d class-boundary bytes %r (%d strings), text and undecoded tail; "
                         "assumed beyond: bytes strictly inside a class behave like its boundaries; other stdin encodings are not modelled. The decoder model is PROVED (all byte strings, all chunkings) to compute the declarative decoding of Model/C03_Utf8Spec.v, "
                         "whose encoder was compared on this run with CPython's str.encode('utf-8', 'surrogateescape') on every length-class boundary, all escapes U+DC80..DCFF and random scalar values (count: input_distribution.utf8_spec_code_points)" % (4 if chk.tier == "thorough" else 3, len(U8_ALPHA), [hex(b) for b in U8_ALPHA], len(us)),
                         "PosixStdinReader.read(): the model takes the outcomes of select (ready / not ready / OSError) and os.read (data / b'' / OSError) as labels; the correspondence injects them by replacing "
-                        "posix_utils.select and posix_utils.os with stubs (all pairs of calls + random call sequences) and checks data / not ready / end of file / closed descriptor on real descriptors; "
+                        "posix_utils.select and posix_utils.os with stubs (all pairs of calls + random call sequences; the OSError subclasses InterruptedError(EINTR) and BlockingIOError(EAGAIN) are injected too and are the same label, as read() has one 'except OSError' per call) "
+                        "and checks on real descriptors: data / not ready / end of file / closed descriptor / non-blocking empty pipe / a real BlockingIOError(EAGAIN) from os.read with a byte pending (select stubbed to 'ready') / "
+                        "a signal interrupting a blocking os.read (PEP 475: the call is retried, read() never sees EINTR); "
                         "the errors= argument (ignore / replace / strict / surrogateescape) is in the model (Model/C03_Errors.v) and compared the same way incl. UnicodeDecodeError raised by read() (input_distribution.reader_errors_calls); "
                         "an incomplete sequence pending at end of file is never delivered (C03_reader_eof_tail_undelivered, checked on a real pipe) - judged outside the property text (it speaks about characters); "
                         "the memo table is compared on a fresh _IsPrefixOfLongerMatchCache() per query history (answers and contents); the module-level instance shared by all parsers is assumed to be only ever filled through __missing__",
@@ -924,7 +1053,7 @@ def replay(data):
     if "reader_calls" in rep:
         mode = rep.get("reader_errors")
         a = impl.run_reader(rep["reader_calls"], mode=mode)
-        m = run_model("c03", [[10, rep["reader_calls"]] if mode is None else [13, mode, rep["reader_calls"]]])[0]
+        m = run_model("c03", [[10, rep["reader_calls"]] if mode is None else [15, mode, rep["reader_calls"]]])[0]
         print("PosixStdinReader(errors=%r): calls (select outcome, os.read outcome) = %r" % (
             "surrogateescape" if mode is None else impl.ERR_MODES[mode], rep["reader_calls"]))
         print("impl :", sx_norm(a))
